@@ -132,4 +132,11 @@ def tasks(tier):
         ts.append(Task(q.split('.')[-1], mk_fn_task(q, {}), extra=x))
     ts.append(Task('tables', t_tables, extra=x))
     ts.append(Task('max_timeframe', t_max_timeframe, extra=x))
+    # "... so an order for it at that price is accepted by a fresh account holding the capital": the acceptance rule of the accounts is
+    # the contract of their submission handlers (shared with C04 / C03): a buy is rejected only when it costs MORE than what is free
+    from pyvc import stubs
+    import props.C04 as P4
+    import props.C03 as P3
+    ts += [t for t in P4.tasks(tier) if t.id.startswith('submit.buy.')]
+    ts += [t for t in P3.tasks(tier) if t.id.startswith('submit.buy.open')]
     return ts
